@@ -43,9 +43,9 @@ Definition g_representable (c : cval) (t : bt) : bool :=
 Definition repr_mis_y (cs : list repr_case) : list N :=
   flat_map (fun '(id, c, t, impl_repr, impl_conv, _) =>
     let ok_repr := match y_representable c t with Ok b => Bool.eqb b impl_repr | _ => false end in
-    let ok_conv := match impl_conv with
-                   | Unmodelled => true       (* the implementation produced an infinity: not compared *)
-                   | _ => outcome_eqb (y_conv_outcome c t) impl_conv
+    let ok_conv := match impl_conv, y_conv_outcome c t with
+                   | Unmodelled, Unmodelled => true   (* an infinity on both sides (the constant is not representable) *)
+                   | _, yo => outcome_eqb yo impl_conv
                    end in
     if ok_repr && ok_conv then [] else [id]) cs.
 
